@@ -236,6 +236,7 @@ HARNESSES = {
     "arith": dict(opt="-O1"),
     "literal": dict(opt="-O1"),
     "file": dict(opt="-O1"),
+    "prelude": dict(opt="-O1"),
     "json": dict(opt="-O1", sanitize=True, compiler="clang++-14", flags=["-fno-sanitize=signed-integer-overflow"]),
     "stl": dict(opt="-O1", sanitize=True, compiler="clang++-14"),
 }
